@@ -315,6 +315,167 @@ def run_pair(job):
     return {"pid": pid, "ents": ents, "tags": tags, "num": num, "errors": errors, "ncalls": ncalls}
 
 
+# =============================================================================== histories of remap calls
+RH_CFG = """%(head)s
+CONSTANTS
+ Kinds <- KindsDefault
+ Coords = {"spherical", "cartesian"}
+ Meths = {%(meths)s}
+ Levels = {"da", "ds"}
+ Dests = {1, 2}
+ MaxLen = %(maxlen)d
+ MaxDiff = %(maxdiff)d
+ Mech <- %(mech)s
+%(invs)s
+CHECK_DEADLOCK FALSE
+"""
+
+
+def rh_cfg(mech, maxlen, maxdiff, invs, meths=("nn", "idw2", "idw3"), judge=False):
+    return RH_CFG % {
+        "head": "INIT JInit\nNEXT JNext" if judge else "SPECIFICATION Spec",
+        "meths": ", ".join('"%s"' % m for m in meths),
+        "maxlen": maxlen,
+        "maxdiff": maxdiff,
+        "mech": mech,
+        "invs": "".join("INVARIANT %s\n" % i for i in invs),
+    }
+
+
+def gen_remap_histories(ctx, maxlen, maxdiff, simulate=None, seed=None):
+    kw = {"simulate": simulate, "depth": maxlen + 1, "seed": seed, "workers": 1} if simulate else {"workers": 4}
+    r = ctx.tlc_ok("RemapHist", rh_cfg("MechObserved", maxlen, maxdiff, ["Independent", "Emit"]), what="generate histories of %d remap calls on one grid pair, consecutive calls differing in <= %d fields%s" % (maxlen, maxdiff, " (simulation)" if simulate else " (all)"), timeout=1500, **kw)
+    out = []
+    for v in r.prints:
+        if isinstance(v, tuple) and len(v) == 2 and v[0] == "H":
+            out.append([{"call": dict(s["call"]), "diff": sorted(s["diff"])} for s in v[1]])
+    if not out:
+        raise Machinery("no remap histories generated: %s" % r)
+    return out
+
+
+H_SRC = ("cuboctahedron", 0, 0)  # 12 nodes, 14 faces, 24 edges
+H_DST = {1: ("cube", 0, 0), 2: ("octahedron", 0, 0)}
+_HDATA = {}
+_FRESH = {}
+
+
+def h_entry(t):
+    return catalog.entries(name=t[0], rot=t[1], cut=t[2])[0]
+
+
+def h_data(kind, n):
+    if kind not in _HDATA:
+        _HDATA[kind] = np.random.default_rng(X.KINDS.index(kind) + 5).uniform(-3.0, 3.0, size=(2, n))
+    return _HDATA[kind]
+
+
+def do_call(c, gs, dests):
+    """One remap call of the alphabet on the given grid objects -> {kind: values}."""
+    import xarray as xr
+
+    ux = hux.import_ux()
+    sizes = {"nodes": int(gs.n_node), "face centers": int(gs.n_face), "edge centers": int(gs.n_edge)}
+    gd = dests[c["dest"]]
+    kw = {"remap_to": c["remapTo"], "coord_type": c["coord"]}
+    if c["meth"] != "nn":
+        kw.update(k=int(c["meth"][3:]), power=2)
+    if c["level"] == "da":
+        da = ux.UxDataArray(h_data(c["kind"], sizes[c["kind"]]), dims=["time", X.DIMS[c["kind"]]], uxgrid=gs, name="v")
+        out = da.remap.nearest_neighbor(gd, **kw) if c["meth"] == "nn" else da.remap.inverse_distance_weighted(gd, **kw)
+        return {c["kind"]: np.asarray(out.values)}
+    ds = ux.UxDataset(xr.Dataset({"v_" + X.PREFIX[k]: (["time", X.DIMS[k]], h_data(k, sizes[k])) for k in X.KINDS}), uxgrid=gs)
+    out = ds.remap.nearest_neighbor(gd, **kw) if c["meth"] == "nn" else ds.remap.inverse_distance_weighted(gd, **kw)
+    return {k: np.asarray(out["v_" + X.PREFIX[k]].values) for k in X.KINDS}
+
+
+def fresh_grids():
+    return X.build_grid(h_entry(H_SRC)), {d: X.build_grid(h_entry(t)) for d, t in H_DST.items()}
+
+
+def fresh_result(c):
+    key = repr(sorted(c.items()))
+    if key not in _FRESH:
+        gs, dests = fresh_grids()
+        _FRESH[key] = do_call(c, gs, dests)
+    return _FRESH[key]
+
+
+def replay_remap_history(item):
+    hid, hist = item
+    gs, dests = fresh_grids()
+    steps = []
+    for st in hist:
+        c = st["call"]
+        try:
+            ref = fresh_result(c)
+        except Exception as e:  # noqa
+            steps.append({"err": "fresh call raises %s: %s" % (type(e).__name__, str(e)[:120]), "fresh": True})
+            continue
+        try:
+            got = do_call(c, gs, dests)
+            same = set(got) == set(ref) and all(got[k].shape == ref[k].shape and np.allclose(got[k], ref[k], rtol=0, atol=1e-12) for k in ref)
+            bad = sorted(k for k in ref if k not in got or got[k].shape != ref[k].shape or not np.allclose(got[k], ref[k], rtol=0, atol=1e-12))
+            steps.append({"same": bool(same), "bad_kinds": bad})
+        except Exception as e:  # noqa
+            steps.append({"err": "%s: %s" % (type(e).__name__, str(e)[:160])})
+    return {"id": hid, "steps": steps}
+
+
+def remap_histories(ctx, rng):
+    thorough = ctx.tier == "thorough"
+    # the model: no memo / a sound memo are history-independent; a memo that forgets a key field is not
+    ctx.tlc_ok("RemapHist", rh_cfg("MechObserved", 2, 6, ["Independent"]), what="remap as read (no memo): Independent, all pairs of calls", workers=4)
+    ctx.tlc_ok("RemapHist", rh_cfg("MechMemoFull", 2, 6, ["Independent"]), what="a memo keyed by (kind, dest, coord, remapTo, k): Independent, all pairs of calls", workers=4)
+    for mech in ("MechMemoNoKind", "MechMemoNoDest", "MechMemoNoK"):
+        r = ctx.tlc("RemapHist", rh_cfg(mech, 2, 6, ["Independent"]), what="in-model mutant %s: Independent must be refuted" % mech, count=False, workers=4)
+        if r.violated != "Independent":
+            raise Machinery("TLC did not refute Independent under %s: %s" % (mech, r))
+    hs = gen_remap_histories(ctx, 2, 2 if thorough else 1)
+    if thorough:
+        hs += gen_remap_histories(ctx, 3, 1)
+    else:
+        hs += gen_remap_histories(ctx, 3, 1, simulate="num=1200", seed=ctx.seed + 5)
+    seen, uniq = set(), []
+    for h in hs:
+        key = repr([sorted(s["call"].items()) for s in h])
+        if key not in seen:
+            seen.add(key)
+            uniq.append(h)
+    items = list(enumerate(uniq))
+    res = pmap(replay_remap_history, items)
+    import json
+    import os
+
+    path = os.path.join(ctx.work, "remap_hist.ndjson")
+    with open(path, "w") as fh:
+        for r in res:
+            fh.write(json.dumps({"id": r["id"], "steps": [({"err": s["err"]} if "err" in s else {"same": s["same"]}) for s in r["steps"]]}) + "\n")
+    jr = ctx.tlc_ok("RemapHist", rh_cfg("MechIntended", 2, 1, ["Judge"], judge=True), what="judge %d replayed remap histories" % len(res), env={"REC_FILE": path}, workers=4, count=False, timeout=1500)
+    os.remove(path)
+    if jr.distinct < len(res):
+        raise Machinery("history judge visited %d states for %d records" % (jr.distinct, len(res)))
+    failed = {}
+    for v in jr.prints:
+        if isinstance(v, tuple) and len(v) == 3 and v[0] == "V":
+            failed[v[1]] = {(int(x[0]), str(x[1])) for x in v[2]}
+    nsteps = 0
+    for (hid, hist), r in zip(items, res):
+        ctx.traces += 1
+        ctx.count(1, ("remap-history", hid) if any(s["diff"] for s in hist) else None)
+        nsteps += len(hist)
+        for i, clause in sorted(failed.get(hid, ())):
+            st, obs = hist[i - 1], r["steps"][i - 1]
+            if obs.get("fresh"):
+                raise Machinery("the alphabet contains a call that fails on fresh grids: %s %s" % (st["call"], obs["err"]))
+            calls = [s["call"] for s in hist[:i]]
+            key = "remap-hist:" + ";".join("%s/%s/%s/%s/%s/d%d" % (c["level"], c["kind"], c["remapTo"], c["coord"], c["meth"], c["dest"]) for c in calls)
+            ctx.violation(key, clause, detail={"step": i, "differs_from_previous_call_in": st["diff"], "wrong_variables": obs.get("bad_kinds"), "error": obs.get("err")}, replay={"source": "%s/r%d/c%d" % H_SRC, "destinations": {str(d): "%s/r%d/c%d" % t for d, t in H_DST.items()}, "calls": calls, "data": "rng(kind index + 5).uniform(-3, 3, (2, n))"}, sig={"step": i, "diff": "+".join(st["diff"]) or "none", "level": st["call"]["level"]})
+    ctx.note("remap_histories_replayed", len(items))
+    ctx.note("remap_history_calls", nsteps)
+    ctx.sample({"remap_history": [s["call"] for s in uniq[len(uniq) // 2]], "differs_from_previous": [s["diff"] for s in uniq[len(uniq) // 2]]})
+
+
 # =============================================================================== run
 def run(ctx):
     rng = random.Random(ctx.seed)
@@ -328,9 +489,13 @@ def run(ctx):
         "(source kind, destination point) case and judges the chosen source (pick), the identity law (ident) and the support of the IDW weights (kset); "
         "Python checks dims/grid/shape against TLC's expected values, leading-dimension consistency, convexity, constants, min/max bounds and that "
         "weights do not increase along TLC's exact distance ranks. Non-trivial = judged destination point whose nearest source is not index-equal "
-        "(or any IDW support)."
+        "(or any IDW support). Histories: RemapHist.tla (the neighbour search a call needs vs the one its values come from; a memo as mechanism data) "
+        "generates sequences of 2-3 remap calls on one source grid object and fixed destination objects (data kind, remap_to, coord_type, nn/idw k, "
+        "DataArray vs Dataset level, destination), each result compared with the same call on freshly built grids and judged by TLC."
     )
     predicted, matrix = model(ctx)
+    X.warm()
+    remap_histories(ctx, rng)
     ctx.note("predicted_wrong_kind_patterns(TLC, observed mechanism)", sorted("%s data, same length as %s -> treated as %s" % (k, "+".join(sorted(p)), v) for (k, p), v in predicted.items()))
     X.warm()
     pairs = choose_pairs(rng, thorough)
@@ -419,4 +584,5 @@ def run(ctx):
         "k is exercised up to min(n of the data's kind, n_node): the library itself refuses k > n_node",
         "destinations with a single point are not exercised",
         "sub-meshes (two opposite cube faces, one octagon) are cut from proved catalogue entries by the harness",
+        "history clause: 'what the same call gives on freshly built grids' is computed by the same code on new Grid objects and compared to 1e-12",
     ]
